@@ -342,7 +342,10 @@ class FixedNoiseGaussianLikelihood(_GaussianLikelihoodBase):
         res = self.noise_covar(*params, shape=shape, **kwargs)
 
         if self.second_noise_covar is not None:
-            res = res + self.second_noise_covar(*params, shape=shape, **kwargs)
+            # The additional noise is the learned homoskedastic term: a call-time `noise` replaces only
+            # the fixed noise above and must not be handed to it (it would be returned a second time).
+            second_kwargs = {k: v for k, v in kwargs.items() if k != "noise"}
+            res = res + self.second_noise_covar(*params, shape=shape, **second_kwargs)
         elif isinstance(res, ZeroLinearOperator):
             warnings.warn(
                 "You have passed data through a FixedNoiseGaussianLikelihood that did not match the size "
